@@ -88,7 +88,9 @@ def contradicts(facts, g):
         if not allowed:
             return True
         # literal bound reasoning on a shared non-literal operand
-        return _lit_bounds(cf, (g[0], L, R))
+        if _lit_bounds(cf, (g[0], L, R)):
+            return True
+        return _difference_unsat(list(cf) + [(g[0], L, R)])
     else:
         K = rw(g[1])
         other = "false" if g[0] == "true" else "true"
@@ -163,3 +165,85 @@ def entails(facts, g):
             L, R = R, L
         return contradicts(facts, (op, L, R))
     return contradicts(facts, ("false" if g[0] == "true" else "true", g[1]))
+
+
+# ---------------------------------------------------------------------------
+# difference-bound reasoning:  x - y (<|<=) c  over linear forms with unit coefficients
+
+def _linear(k):
+    """key -> (dict atom->coeff, const) or None"""
+    if not isinstance(k, tuple):
+        return None
+    if k[0] == "lit" and isinstance(k[1], (int, float)) and not isinstance(k[1], bool):
+        return {}, k[1]
+    if k[0] == "op" and len(k) == 4 and k[1] in ("+", "-"):
+        a, b = _linear(k[2]), _linear(k[3])
+        if a is None or b is None:
+            return None
+        co = dict(a[0])
+        sgn = 1 if k[1] == "+" else -1
+        for x, c in b[0].items():
+            co[x] = co.get(x, 0) + sgn * c
+        return {x: c for x, c in co.items() if c != 0}, a[1] + sgn * b[1]
+    if k[0] == "op" and len(k) == 4 and k[1] == "*":
+        a, b = _linear(k[2]), _linear(k[3])
+        if a is not None and b is not None:
+            if not a[0]:
+                return {x: c * a[1] for x, c in b[0].items() if c * a[1] != 0}, a[1] * b[1]
+            if not b[0]:
+                return {x: c * b[1] for x, c in a[0].items() if c * b[1] != 0}, a[1] * b[1]
+    return {k: 1}, 0
+
+
+def _difference_unsat(facts):
+    """facts: (op, L, R) with op in < <= == ; returns True iff the difference constraints have a negative cycle."""
+    edges = []      # (u, v, c, strict): u - v <= c  (strict: <)
+    ZERO = ("zero",)
+    for f in facts:
+        if f[0] not in ("<", "<=", "=="):
+            continue
+        a, b = _linear(f[1]), _linear(f[2])
+        if a is None or b is None:
+            continue
+        co = dict(a[0])
+        for x, c in b[0].items():
+            co[x] = co.get(x, 0) - c
+        co = {x: c for x, c in co.items() if c != 0}
+        k = b[1] - a[1]          # sum(co) (op) k
+        pos = [x for x, c in co.items() if c == 1]
+        neg = [x for x, c in co.items() if c == -1]
+        if len(pos) + len(neg) != len(co) or len(pos) > 1 or len(neg) > 1:
+            continue
+        u = pos[0] if pos else ZERO
+        v = neg[0] if neg else ZERO
+        if u == v:
+            continue
+        if f[0] == "<":
+            edges.append((u, v, k, True))
+        elif f[0] == "<=":
+            edges.append((u, v, k, False))
+        else:
+            edges.append((u, v, k, False))
+            edges.append((v, u, -k, False))
+    if not edges:
+        return False
+    nodes = set()
+    for u, v, c, s in edges:
+        nodes.add(u)
+        nodes.add(v)
+    # Bellman-Ford on the constraint graph (edge v -> u with weight c): negative cycle <=> unsat
+    dist = {n: (0, False) for n in nodes}
+
+    def less(a, b):
+        return a[0] < b[0] or (a[0] == b[0] and a[1] and not b[1])
+
+    for it in range(len(nodes) + 1):
+        changed = False
+        for u, v, c, s in edges:
+            cand = (dist[v][0] + c, dist[v][1] or s)
+            if less(cand, dist[u]):
+                dist[u] = cand
+                changed = True
+        if not changed:
+            return False
+    return True
